@@ -289,6 +289,11 @@ def interval_from_decisions(path, var_sub, lo=0, hi=4294967295):
             lo = max(lo, c)
         elif op == "Eq":
             lo, hi = max(lo, c), min(hi, c)
+        elif op == "Ne":
+            if c == lo:
+                lo += 1
+            if c == hi:
+                hi -= 1
     return (lo, hi)
 
 
@@ -375,3 +380,15 @@ def timestamp_semantics(m, rep, rule):
                     rbad.append("format %s sets the timestamp to %s (expected previous timestamp + delta)" % (m.variants[vi], v))
     rep.check(rule, "reader:timestamp-semantics", not rbad and nr >= 3, "the reader sets the timestamp on format 0 and adds the delta otherwise (%d stage paths)" % nr,
               "; ".join(rbad[:3]) or "timestamp stage paths not found", m.b["get_next"].span)
+
+
+def timestamp_semantics_reader_only(m, rep, rule):
+    class _R:
+        def __init__(self, rep):
+            self.rep = rep
+        def floor(self, *a):
+            pass
+        def check(self, r, key, cond, ok, bad=None, span=None, **kw):
+            if key.startswith("reader:"):
+                self.rep.check(r, key, cond, ok, bad, span)
+    timestamp_semantics(m, _R(rep), rule)
